@@ -317,9 +317,76 @@ class SendCanonical(Unit):
             rp = replay_send(self.cls, v)
             if rp['confirmed']:
                 fails.append(dict(call=rp['call'], observed=rp['observed'], witness='send:%d' % v))
+        rp = replay_preempted_send(self.cls)
+        cnt += rp['n']
+        if rp['confirmed']:
+            fails.insert(0, dict(call=rp['call'], observed=rp['observed'], witness='one-preemption'))
         return dict(name=self.name + '.enumeration', evaluations=cnt, failures=fails,
-                    bound='every n < 2^%d, powers of two +-1 below 2^%d, 2000 seeded random' %
+                    bound='every n < 2^%d, powers of two +-1 below 2^%d, 2000 seeded random; plus ONE PREEMPTION: 8 values x 3 values '
+                          'of another thread x every line of send as the switch point (the other send runs to completion there)' %
                           (14 if tier == 'quick' else 21, self.bits))
+
+
+def replay_preempted_send(cls):
+    """One preemption, deterministically: send(a) runs under a trace function which, when a chosen line of `send` is about to
+    execute, runs a complete send(b) of "another thread" (another connection in the process encodes a length prefix) and then
+    lets send(a) go on.  Every line of send is tried as the switch point.  Both encodings must come out as if run alone: the
+    encoder keeps no state outside its own frame (seeded change C03-r16: a class-level scratch buffer)."""
+    import sys
+    code = getattr(cls.send, '__code__', None)
+    n = 0
+    if code is None:
+        return dict(confirmed=False, n=0, call='send under preemption', observed='send is not a Python function')
+    top = 1 << (7 * NOMINAL[cls.__name__] - 1)
+    for a in (0, 1, 127, 128, 300, 16384, 2097151, top - 1):
+        for b in (5, 300, 2097152):
+            k = 0
+            while True:
+                sa, sb = Sink(), Sink()
+                state = dict(lines=0, fired=False, err=None)
+
+                def local(frame, event, arg, k=k, state=state, sb=sb, b=b):
+                    if event == 'line':
+                        if state['lines'] == k and not state['fired']:
+                            state['fired'] = True
+                            sys.settrace(None)
+                            try:
+                                cls.send(b, sb)
+                            except Exception as e:      # noqa
+                                state['err'] = e
+                            sys.settrace(glob)
+                        state['lines'] += 1
+                    return local
+
+                def glob(frame, event, arg):
+                    if event == 'call' and frame.f_code is code and not state['fired']:
+                        return local
+                    return None
+                old = sys.gettrace()
+                sys.settrace(glob)
+                try:
+                    try:
+                        cls.send(a, sa)
+                        err = None
+                    except Exception as e:              # noqa
+                        err = e
+                finally:
+                    sys.settrace(old)
+                if not state['fired']:
+                    break
+                n += 1
+                wa, wb = wire.varint_enc(a), wire.varint_enc(b)
+                if err is not None or state['err'] is not None or sa.data != wa or sb.data != wb:
+                    return dict(confirmed=True, n=n,
+                                call='%s.send(%d, s1) preempted before its line %d by a complete %s.send(%d, s2) of another thread'
+                                     % (cls.__name__, a, k + 1, cls.__name__, b),
+                                observed='s1 received %s (canonical %s), s2 received %s (canonical %s)%s'
+                                         % (sa.data.hex(), wa.hex(), sb.data.hex(), wb.hex(),
+                                            '; raised %r' % (err or state['err'],) if (err or state['err']) else ''))
+                k += 1
+                if k > 200:
+                    break
+    return dict(confirmed=False, n=n, call='send under one preemption', observed='conforms')
 
 
 def replay_send(cls, n):
